@@ -49,6 +49,7 @@ func (st *State) smDelete(m Val, k Val) {
 	st.written[smDom] = true
 	d, _, _ := st.smArrs()
 	id, kt := st.smID(m), smKey(k)
+	st.countRemoval(sel(sel(d, id), kt))
 	st.setArr(smDom, "(Array Int (Array Int Bool))", store(d, id, store(sel(d, id), kt, "false")))
 }
 
@@ -120,6 +121,8 @@ func modelSyncMapRange(st *State, fr *Frame, fn *ssa.Function, a []Val, pos toke
 	}
 	visName := "G|it|" + rr.id + "|visited"
 	st.setArr(visName, "(Array Int Bool)", "((as const (Array Int Bool)) false)")
+	cntName := "G|it|" + rr.id + "|count" // ghost: number of keys visited so far (visitedCount() in specs)
+	st.setArr(cntName, "Int", "0")
 	st.evalRangeInv(fr, rr, "inv-init", true)
 	// havoc what the callback may change
 	allocs := false
@@ -136,6 +139,12 @@ func modelSyncMapRange(st *State, fr *Frame, fn *ssa.Function, a []Val, pos toke
 		st.bumpAlloc()
 	}
 	st.havoc(visName)
+	st.havoc(cntName)
+	if rr.spec != nil {
+		for _, g := range rr.spec.Ghosts {
+			st.havoc("G|u|" + g.Name)
+		}
+	}
 	st.evalRangeInv(fr, rr, "", false)
 	d, vt, vv := st.smArrs()
 	id := st.smID(m)
@@ -149,6 +158,11 @@ func modelSyncMapRange(st *State, fr *Frame, fn *ssa.Function, a []Val, pos toke
 	ktag, kval := st.fresh("smk.tag", SInt), st.fresh("smk.val", SInt)
 	st.assume(and(eq(kt, fmt.Sprintf("(pair %s %s)", ktag, kval)), fmt.Sprintf("(> %s 0)", ktag), sel(sel(d, id), kt), not(sel(vis, kt))))
 	st.setArr(visName, "(Array Int Bool)", store(vis, kt, "true"))
+	{
+		n := st.arr(cntName, "Int")
+		st.assume(fmt.Sprintf("(and (>= %s 0) (< %s 281474976710656))", n, n)) // a map holds fewer than 2^48 keys
+		st.setArr(cntName, "Int", fmt.Sprintf("(+ %s 1)", n))
+	}
 	anyT := types.NewInterfaceType(nil, nil)
 	key := Val{T: anyT, C: []string{ktag, kval}}
 	val := Val{T: anyT, C: []string{sel(sel(vt, id), kt), sel(sel(vv, id), kt)}}
@@ -168,6 +182,16 @@ func (st *State) rangeReturn(fr *Frame, res []Val) bool {
 	r := res[0].C[0]
 	cont := func(s *State) bool {
 		// callback returned true: next iteration -> the invariant must hold again; path ends
+		if rr.spec != nil {
+			cfr := s.top()
+			for _, g := range rr.spec.Ghosts {
+				sc := s.specCtx(cfr, fmt.Sprintf("range %d ghost %s", rr.ord, g.Name))
+				idx, val := sc.eval(g.Index.Expr), sc.eval(g.Value.Expr)
+				nm := "G|u|" + g.Name
+				arr := s.arr(nm, "(Array Int Int)")
+				s.setArr(nm, "(Array Int Int)", store(arr, idx.C[0], val.C[0]))
+			}
+		}
 		s.evalRangeInv(s.top(), rr, "inv-preserve", true)
 		return false
 	}
